@@ -175,18 +175,39 @@ func drawContainerJob(t *rapid.T, pkg string, i int) Job {
 func drawC17(t *rapid.T) C17Case {
 	var c C17Case
 	n := rapid.IntRange(2, 12).Draw(t, "njobs")
-	theme := rapid.IntRange(0, 5).Draw(t, "theme")
+	theme := rapid.IntRange(0, 6).Draw(t, "theme")
 	for i := 0; i < n; i++ {
 		switch theme {
 		case 1:
 			c.Jobs = append(c.Jobs, drawContainerJob(t, "gzip", i))
 		case 2:
 			c.Jobs = append(c.Jobs, drawContainerJob(t, "zlib", i))
+		case 3:
+			// every job a Writer over data whose optimal code is deeper than the limit (frequency ladders,
+			// exact Fibonacci counts, short periods): all of them run the length-limiting pass at once
+			var seg gen.Seg
+			switch rapid.IntRange(0, 2).Draw(t, "deepkind") {
+			case 0:
+				k := rapid.IntRange(17, 22).Draw(t, "fibk")
+				fa, fb, sum := 1, 2, 0
+				for q := 0; q < k; q++ {
+					sum += fa
+					fa, fb = fb, fa+fb
+				}
+				seg = gen.Seg{Kind: "fib", N: sum, A: k, B: 1, Seed: uint64(i)}
+			case 1:
+				seg = gen.Seg{Kind: "ladder", N: rapid.IntRange(3000, 60000).Draw(t, "n"), A: rapid.SampledFrom([]int{15, 17, 20}).Draw(t, "ratio"), Seed: uint64(i)}
+			default:
+				seg = gen.Seg{Kind: "period", N: rapid.IntRange(300, 20000).Draw(t, "n"), A: rapid.IntRange(1, 40).Draw(t, "period"), Seed: uint64(i)}
+			}
+			w := C18WCase{Set: PSetting{Pkg: "flate", WSetting: WSetting{Ctor: rapid.SampledFrom([]string{"new", "4k"}).Draw(t, "ctor"), Level: rapid.SampledFrom([]int{-2, -2, -2, -1, 1, 2}).Draw(t, "level")}}, Data: gen.Recipe{Segs: []gen.Seg{seg}}}
+			w.Ops = []gen.Op{{K: "W", N: w.Data.Len()}, {K: "C"}}
+			c.Jobs = append(c.Jobs, Job{Kind: "write", W: &w})
 		default:
 			c.Jobs = append(c.Jobs, drawJob(t))
 		}
 	}
-	if theme == 1 || theme == 2 {
+	if theme == 1 || theme == 2 || theme == 3 {
 		// one family only: the jobs are small, so run more rounds to get real overlap on whatever they share
 		c.Rounds = 12
 	}
